@@ -11,12 +11,36 @@ fn cfg(d: &mut Dna) -> GenCfg {
         1 => vec![Tr::Ord],
         _ => vec![Tr::PartialOrd, Tr::Ord],
     };
-    let mut c = GenCfg::behaviour(&must, &[Tr::PartialEq, Tr::Eq, Tr::Hash, Tr::Debug]);
+    let mut c = GenCfg::behaviour(&must, &[Tr::PartialEq, Tr::Eq, Tr::Hash, Tr::Debug, Tr::Clone, Tr::Copy]);
     c.trait_pct = 15;
     c.attr_pct = 55;
     c.max_variants = 3;
     c.min_fields = if d.chance(70) { 2 } else { 0 };
     c
+}
+
+/// now and then one compared field (without a method, of a plain type) becomes `Skew`, whose PartialOrd is the reverse of
+/// its Ord: whichever of the two the generated code asks where the other is documented shows
+fn adjust(s: &mut TypeSpec, d: &mut Dna) -> bool {
+    if s.kind == Kind::Union || !d.chance(12) {
+        return true;
+    }
+    let skew = crate::types::base_types().into_iter().find(|b| b.src == "Skew");
+    let Some(skew) = skew else { return true };
+    let has_default = s.has(Tr::Default);
+    for v in s.variants.iter_mut() {
+        let cands: Vec<usize> = (0..v.fields.len())
+            .filter(|i| {
+                let f = &v.fields[*i];
+                f.ty.params.is_empty() && f.ty.refs == 0 && f.default_expect.is_none() && f.attrs.iter().all(|a| a.method().is_none() && !a.ignore()) && !has_default
+            })
+            .collect();
+        if !cands.is_empty() {
+            let i = *d.choose(&cands);
+            v.fields[i].ty = skew.clone();
+        }
+    }
+    true
 }
 
 /// `fn oracle_cmp(a, b) -> Option<Ordering>` over same-variant pairs (None for different variants = "not this property")
@@ -136,12 +160,13 @@ pub fn behaviour() -> Behaviour {
                declaration order over >=3 compared fields, or a method combined with a rank, or incomparable values, and a decisive comparison was observed",
         salt: 0xC03,
         cfg,
-        adjust: no_adjust,
+        adjust,
         render,
-        quick: 4000,
+        quick: 7000,
         thorough: 20000,
         batch: 25,
         assumptions: &["m_cmp_rev / m_pcmp_rev reverse the order so swapped arguments are visible; m_pcmp_none and Inc/f32 produce None"],
         miri_units: 0,
+        extra: None,
     }
 }
